@@ -1124,6 +1124,13 @@ def rule_attach_table(ctx):
                     if okk:
                         loops = [l for l in walk_no_nested(fn.node) if isinstance(l, ast.For) and l.lineno <= n.lineno <= l.end_lineno]
                         okk = bool(loops) and isinstance(loops[-1].target, ast.Name) and unparse(a_obj.slice) == loops[-1].target.id
+                    elif arr is not None and isinstance(a_obj, ast.Name) and isinstance(s_obj, ast.Name) and a_obj.id == s_obj.id:
+                        # ... or the object itself: the local that this iteration appended to the role's list
+                        from .rules_par import _appends
+                        okk = any(name == arr and isinstance(node.args[0], ast.Name) and node.args[0].id == a_obj.id
+                                  for name, v, node in _appends(fn))
+                        stores = [x for x in walk_no_nested(fn.node) if isinstance(x, ast.Name) and x.id == a_obj.id and isinstance(x.ctx, ast.Store)]
+                        okk = okk and len(stores) == 1
                 else:
                     okk = isinstance(tagn, ast.Name) and tagn.id == tagvar and isinstance(argn, ast.Name) and argn.id == argvar
                 ctx.ob("attach-table", fn, n, unparse(n, 80), "descriptor triple is (tag, args of that sketch, name of that sketch's block)", bool(okk))
